@@ -4,7 +4,17 @@ from .facts import AnchorError, loc
 
 
 class _NoInline(Policy):
+    """Table constructors: crate-local helpers (e.g. a function wrapping a constant conversion or building one entry)
+    are inlined; the entry constructors themselves are the vocabulary and stay calls."""
     record_calls = True
+    max_depth = 4
+
+    def inline(self, fn, args, interp, path):
+        p = fn.get("path", "")
+        if "operators::Operator" in p or p.endswith("::make") or p.endswith("make_partial_derivative_ops"):
+            return False
+        b = interp.callee_body(fn)
+        return b is not None and len(b["blocks"]) <= 60
 
 
 def _single_path(fb, body):
